@@ -188,8 +188,8 @@ func Run(ctx *Ctx, sc *Scn) (evs []trace.Ev, note string) {
 // ---- generators --------------------------------------------------------
 
 func P(op string, ps ...int) Op { return Op{Op: op, Ps: ps} }
-func T(s string) Op            { return Op{Op: "PRINT", T: s} }
-func S(ps ...[]int) Op         { return Op{Op: "SGR", Sgr: ps} }
+func T(s string) Op             { return Op{Op: "PRINT", T: s} }
+func S(ps ...[]int) Op          { return Op{Op: "SGR", Sgr: ps} }
 
 var nOps = []string{"CUU", "CUD", "CUF", "CUB", "CNL", "CPL", "CHA", "HPA", "VPA", "ECH", "ICH", "DCH", "IL", "DL", "SU", "SD"}
 
